@@ -357,6 +357,7 @@ func genScenario(r *Rng, pf pipeProfile) PScn {
 			}
 			p.LineDir = r.Chance(25)
 		}
+		p.At = r.Chance(15) // all tags of the package written with the other marker
 		s.Pkgs = append(s.Pkgs, p)
 	}
 	// imports: later index may be imported by earlier index (acyclic)
@@ -383,7 +384,7 @@ func genScenario(r *Rng, pf pipeProfile) PScn {
 				if r.Chance(30) {
 					continue
 				}
-				codes := []string{"ov-", "ov-", "ov-", "on-", "sn-", "in-", "iv-", "ovd", "ond", "sv-", "svd"}
+				codes := []string{"ov-", "ov-", "ov-", "on-", "sn-", "in-", "iv-", "ovd", "ond", "sv-", "svd", "or-"}
 				if pf.failures && r.Chance(14) {
 					codes = []string{"fn-", "fv-", "ove", "ox-", "one"}
 				}
@@ -424,7 +425,7 @@ func pipeStream(name string, quick, thorough int, clauses string, pf pipeProfile
 	}
 }
 
-const pipeRuleCommon = "synthetic modules of 1–4 packages (directories and types declared in descending order), defined scalar/struct/generic/interface types, aliases, tags at global / package-doc (in a third of the packages spread over the package comments of two files, which in half of those say different things about one key: the file later in name order wins) / declaration level from a menu incl. repeated keys and names that are prefixes of one another, 1–4 recording generators named rec, recx, rec2 and proto (with/without alias hook, reflect.New or custom New, a call counter and a helper-once flag rendered into the output) with scripted reactions per (generator, package, type); real NewContext/Execute in fresh child processes; "
+const pipeRuleCommon = "synthetic modules of 1–4 packages (directories and types declared in descending order), defined scalar/struct/generic/interface types, aliases, tags (written with `+`, in one package of seven with `@`) at global / package-doc (in a third of the packages spread over the package comments of two files, which in half of those say different things about one key: the file later in name order wins) / declaration level from a menu incl. repeated keys and names that are prefixes of one another, 1–4 recording generators named rec, recx, rec2 and proto (with/without alias hook, reflect.New or custom New, a call counter and a helper-once flag rendered into the output; one reaction in twelve resolves the names of foreign types through the file's namer and renders nothing) with scripted reactions per (generator, package, type); real NewContext/Execute in fresh child processes; "
 
 func init() {
 	register(&Property{ID: "C06", Streams: []*Stream{
